@@ -6,6 +6,7 @@ package encoding
 // hand-written parsers), C06 (allocation / termination of FromCBOR).
 
 import (
+	"time"
 	cbor "github.com/fxamacker/cbor/v2"
 )
 
@@ -186,7 +187,33 @@ func VerifC06from() {
 		_, dm = verifRealModes()
 	}
 	verifResetStub()
+	if ndParam("hdr32", 0) == 1 {
+		// the property's own hostile class: a header declaring >= 2^24 entries, hardly any data
+		ndAssume(len(data) >= 5 && data[0] == 0xba && data[1] != 0)
+	}
 	o := newStructFieldsCBOR()
+	if !ndSymbolic() {
+		// natively: the call must return within the property's 5 s and within its memory bound
+		// (measured around the call; this worker runs nothing else)
+		a0 := ndAllocMark()
+		done := make(chan bool, 1)
+		go func() {
+			defer func() { _ = recover(); done <- true }()
+			_ = o.FromCBOR(dm, data)
+		}()
+		returned := false
+		select {
+		case <-done:
+			returned = true
+		case <-time.After(5 * time.Second):
+		}
+		used := ndAllocSince(a0)
+		within := returned && used <= 1<<20+1024*uint64(len(data))
+		ndAssert("c06-alloc-proportional-to-input", within)
+		ndAssert("c06-iterations-proportional-to-input", within)
+		ndCover("c06-from-ran", returned)
+		return
+	}
 	a0 := ndAllocMark()
 	if ndTry(func() { _ = o.FromCBOR(dm, data) }) {
 		return
